@@ -583,6 +583,32 @@ fn check(out: &Outcome) -> (Vec<Violation>, bool) {
                 let inside = incs.iter().filter(|wr| ivs.iter().any(|(_, wret, uinv, _)| wr.invoke > *wret && wr.ret < *uinv)).count();
                 let maybe = incs.iter().filter(|wr| ivs.iter().any(|(winv, _, _, uret)| wr.ret > *winv && wr.invoke < *uret)).count();
                 let seen = lines.iter().filter(|l| l.starts_with(&format!("changed {} ", NKEY))).count();
+                // the counter only grows here (every increment is by 1..3): each committed increment
+                // leaves a different total, so no two notifications may carry the same value, and a
+                // subscription that covers every increment is told the total the key ends with
+                let mut vals: Vec<&str> = lines.iter().filter_map(|l| l.strip_prefix(&format!("changed {} ", NKEY)[..])).collect();
+                let n_vals = vals.len();
+                vals.sort();
+                vals.dedup();
+                if vals.len() < n_vals {
+                    viols.push(Violation::new(
+                        "notification-not-committed-value",
+                        format!("{}:increment:{}", transport, if out.wrecs.iter().filter(|w| w.kind == "increment").map(|w| w.writer).collect::<std::collections::BTreeSet<_>>().len() > 1 { "two-writers" } else { "one-writer" }),
+                        format!("subscriber {}: two increment notifications carry the same total although every increment changes it; its lines: {:?}", si, lines),
+                    ));
+                }
+                let covered = !incs.is_empty() && inside == incs.len() && out.wrecs.iter().filter(|w| w.kind == "increment").all(|w| w.ok);
+                if covered {
+                    if let Some(f) = out.finals.iter().find(|f| f.0 == NKEY).and_then(|f| f.1.clone()) {
+                        if !vals.iter().any(|v| *v == f) {
+                            viols.push(Violation::new(
+                                "notification-not-committed-value",
+                                format!("{}:increment:final-total-missing", transport),
+                                format!("subscriber {} watched {} during all {} increments; the key ends at {:?} but no notification carries that total: {:?}", si, NKEY, incs.len(), f, lines),
+                            ));
+                        }
+                    }
+                }
                 if seen < inside || seen > maybe {
                     viols.push(Violation::new(
                         if seen < inside { "notification-lost" } else { "notified-outside-subscription" },
